@@ -2,7 +2,8 @@
   C07 — Clone fidelity and independence. Property theorems only (model: PgModel/Sym*.lean,
   `Tree.clone`; lemmas: PgProofs/SymClone.lean).
 -/
-import PgProofs.SymFrame
+import PgProofs.SymFrame2
+import PgProps.C01
 namespace Pg.Sym
 
 /-- **The clone is a well-formed tree of its own**: root without parent, empty path, and every
@@ -91,6 +92,49 @@ theorem C07_independent_history (cfg : Cfg) (f : Forest) (ops : List Op) (b : Tr
     b ∈ (runHist cfg f (ops.map (fun op => (false, op)))).roots :=
   runHist_frame cfg b ops f ((repOk_iff f).mp hf).1 hb hq hal
 
+/-- **non-interference, one call, the whole surface**: value-offering or not, with or without
+change notification — a tree `b` that does not contain the target of the call and is not itself
+offered to it is still a root afterwards, exactly as it was. For every operation except a slice
+assignment (F225), from a well-formed forest whose roots claim no parent, on every tree with the
+belief fixes. (The notification walks the *believed* ancestors of the target; in a well-formed
+forest those are its actual ancestors, so the walk never leaves the target's own tree — in
+particular it never crosses from a clone to its original.) -/
+theorem C07_independent_call_full {lcs nb : Bool} {scp : Option Bool} {sat : Bool} (f : Forest) (n : Bool) (op : Op) (b : Tree)
+    (hf : f.wf = true) (hfree : f.rootsFree = true) (hk : wellKeyed op = true) (hb : b ∈ f.roots)
+    (ht : ∀ t, op.target? = some t → t ∉ b.ids) (hr : ∀ id ∈ op.refs, b.id? ≠ some id) (hs : IsSlice op = false) :
+    b ∈ (stepA (Cfg.fixedWith lcs nb scp sat) f n op).forest.roots := by
+  have hw := (wf_iff f).mp hf
+  have hv : V f := ⟨⟨hw.1, hw.2.1, hw.2.2.1⟩, hfree⟩
+  unfold stepA
+  split
+  · exact hb
+  · unfold stepN
+    simp only
+    have hal := step_unal (lcs := lcs) (nb := nb) (sp := scp) (sat := sat) f n op hv.w hk
+    exact normalizeRoots_keeps f _ _ b (step_inv _ f n op hv.w.inv hk hal).nb hb
+      (step_frameV f n op b hv hk hb ht hr hs)
+
+/-- **non-interference over histories, the whole surface**: after any history of calls (any
+operation but a slice assignment; notification on or off) that neither target a node of `b` nor
+offer `b` itself, `b` is still a root of the forest, exactly as it was — e.g. the original after
+any such history on its clone, and vice versa (`C07_disjoint`: their ids are disjoint). -/
+theorem C07_independent_history_full (hist : List (Bool × Op)) (b : Tree) : ∀ (f : Forest), f.wf = true →
+    f.rootsFree = true → b ∈ f.roots →
+    (∀ s ∈ hist, wellKeyed s.2 = true ∧ IsSlice s.2 = false ∧ (∀ t, s.2.target? = some t → t ∉ b.ids) ∧
+      ∀ id ∈ s.2.refs, b.id? ≠ some id) →
+    b ∈ (runHist Cfg.patched f hist).roots := by
+  induction hist with
+  | nil => intro f _ _ hb _; exact hb
+  | cons s rest ih =>
+    intro f hf hfree hb hs
+    obtain ⟨n, op⟩ := s
+    obtain ⟨hk, hsl, ht, hr⟩ := hs (n, op) (by simp)
+    simp only [runHist]
+    refine ih _ (C01_step_Full f n op hf hk) ?_ ?_ (fun s hs' => hs s (by simp [hs']))
+    · exact C01_roots_parentless (lcs := true) (nb := true) (scp := none) (sat := false) f n op hfree
+        (by cases op <;> first | rfl | simp [IsSlice] at hsl)
+    · exact C07_independent_call_full (lcs := true) (nb := true) (scp := none) (sat := false) f n op b hf hfree hk hb ht hr hsl
+
 /-! ## Flags (F17) -/
 
 def sealedList : Tree :=
@@ -176,6 +220,31 @@ def resealed : Tree :=
 theorem C07_counterexample_F93 :
     resealed.sealFaithful Cfg.patched false = false ∧
       resealed.flagsEq (resealed.clone Cfg.patched true 2 none []).1 = false := by decide
+
+/-- **`allow_partial` at every descendant, exactly**: original and clone agree on the flag at
+every node *iff* every spec-bound list held directly in a field of an object carries the flag the
+object's constructor hands it (`partFaithful`): without a scope the object's own `allow_partial`,
+inside `with pg.allow_partial(b)` the scope's `b` (F120). Every other node keeps its flag. -/
+theorem C07_partial_everywhere (cfg : Cfg) (deep : Bool) (next : Nat) (t : Tree) (hm : t.noMissing = true) :
+    t.partEq (t.clone cfg deep next none []).1 = t.partFaithful cfg none := by
+  have := clone_partEq cfg deep next none [] t hm none
+  simpa [adoptOpt] using this
+
+/-- F120 as an instance: an object (allow_partial=False) holding a spec-bound list, cloned inside
+`with pg.allow_partial(True)`: not faithful for that scope, and the clone's list has the flag set;
+without a scope the same tree is faithful and the clone agrees everywhere. -/
+def objWithTypedList : Tree :=
+  .node { id := 0, parent := none, path := [], kind := .obj 1, sealed := false, accW := true, part := false }
+    [(.s 0, .leaf .none),
+     (.s 1, .node { id := 1, parent := some 0, path := [.s 1], kind := .list, sealed := false, accW := true,
+                    part := false, typed := true } []),
+     (.s 2, .leaf .none)]
+
+theorem C07_counterexample_F120 :
+    objWithTypedList.partFaithful { Cfg.patched with scopePartial := some true } none = false ∧
+    objWithTypedList.partEq (objWithTypedList.clone { Cfg.patched with scopePartial := some true } false 2 none []).1 = false ∧
+    objWithTypedList.partFaithful Cfg.patched none = true ∧
+    objWithTypedList.partEq (objWithTypedList.clone Cfg.patched false 2 none []).1 = true := by decide
 
 def sample : Forest :=
   (stepA Cfg.patched Forest.empty true (.new (.node .dict false true false
